@@ -10,6 +10,8 @@ STANDIN_PARENT = os.path.join(os.path.dirname(os.path.abspath(__file__)), "mosek
 
 def enable_standin():
     import cvxpy  # noqa: F401  (cvxpy fixes its list of installed solvers at import: import it before the stand-in exists)
+    import logging
+    logging.getLogger("__cvxpy__").setLevel(logging.ERROR)   # cvxpy logs that its own MOSEK interface cannot use the stand-in
     if STANDIN_PARENT not in sys.path:
         sys.path.insert(0, STANDIN_PARENT)
     import mosek
